@@ -213,7 +213,7 @@ def t_shape(t, cfg):
         r = ctx.call(ExpressionSimplifier.__call__, s, e)
         ctx.cover("ret")
         if r.raised:
-            ctx.check("no-raise:%s" % type(r.exc).__name__, False, kind="no-raise")
+            ctx.check("no-raise:%s" % type(r.exc).__name__, False, kind="no-raise", info={"exception": repr(r.exc)})
             return
         res = r.value
         ndiv = len(env.divisors)
@@ -357,6 +357,40 @@ def family(w, ws, tier):
     return res
 
 
+# shapes whose obligation is not decided in budget on the unchanged tree (non-linear products of symbolic constants, rotation
+# of a rotation by symbolic counts, bit operations over divisions, 4000+ paths): removed statically, listed in the evidence
+NOT_ATTEMPTED = {
+    "*(A,#p,#q)": "product of two symbolic constants and an identifier: non-linear, neither encoding decides it in budget",
+    "*(#p,A,#q)": "same",
+    "*(*(A,#p),#q)": "same",
+    "*(*(A,#p),*(A,#p))": "same",
+    "<<<(<<<(A,#p),#q)": "rotation of a rotation by two symbolic counts",
+    ">>>(>>>(A,#p),#q)": "same",
+    ">>>(<<<(A,#p),#q)": "same",
+    "&(udiv(A,B),udiv(A,B))": "bit operation over a 32-bit division",
+    "&(umod(A,B),umod(A,B))": "same",
+    "&(umod(A,#p),umod(A,#p))": "same",
+    "&(udiv(A,#p),udiv(A,#p))": "same",
+    "a>>((f?#p:#q),(f?#r:#p))": "more than 4000 paths",
+    "<<((f?#p:#q),(f?#r:#p))": "four symbolic constants under shifts: solver memory",
+    ">>((f?#p:#q),(f?#r:#p))": "same",
+}
+
+
+def _take_fired():
+    d = dict(FIRED)
+    FIRED.clear()
+    return {"passes_fired": d}
+
+
+def _strip_widths(sh):
+    import re
+    return re.sub(r"(?<=[A-Za-z])\d+", "", sh)
+
+
+PROPERTY["not_attempted"] = ["%s: %s" % kv for kv in sorted(NOT_ATTEMPTED.items())]
+
+
 def targets(tier):
     fns = [ExpressionSimplifier.__call__, ExpressionSimplifier.expr_simp_inner, ExpressionSimplifier.apply_simp] + sorted(
         PASSES, key=lambda f: f.__name__)
@@ -367,6 +401,8 @@ def targets(tier):
         fam = family(w, ws, tier)
         for cfg in cfgs:
             for i, t in enumerate(fam):
+                if _strip_widths(show(t)) in NOT_ATTEMPTED:
+                    continue
                 if tier == "quick" and cfg != "commons" and i % 4:
                     continue      # quick: every 4th shape under the second configuration
                 cfgd = expr_config(WRAPPERS)
@@ -374,6 +410,6 @@ def targets(tier):
                 tg = Target("C01/%s/w=%d,%d/%s" % (cfg, w, ws, show(t)), fns, t_shape(t, cfg), kind="bounded",
                             bound="shape fixed; constants and identifiers symbolic", config=cfgd, diff_samples=3, max_paths=4000)
                 tg.expect_covers = ["ret"]
-                tg.extra = lambda: {"passes_fired": dict(FIRED)}
+                tg.extra = _take_fired
                 ts.append(tg)
     return ts
